@@ -22,13 +22,13 @@ META = {
             "internal/backends/compiler_wat (explored per program only), the allocator (C10), null references, the release callbacks' "
             "enumeration of the references stored in an item (observed as nested Release events, not predicted). Header-layout constants of "
             "the model are regenerated from heap.wat.ws (Gen/C11Hdr.lean, header_layout_matches_source); the zero loop of HeapAlloc is "
-            "checked on the real run, not proved from the WAT.",
+            "modelled by hand (alloc_zeroed) and checked on every real allocation (block poisoned at free time, so re-used memory is garbage), not regenerated from the WAT.",
     "technique": "Lean 4 proof over a protocol state machine + WAT-rewriting instrumentation of the real compiled programs with "
                  "model-independent oracles (poisoning, quarantine) + trace replay through the Lean model",
 }
 REQUIRED = ["rc_counts_references", "owned_step", "owned_reachable", "no_dangling_reference", "no_premature_free",
             "err_sticky_run", "free_dead_is_error", "release_dead_is_error", "release_zero_is_error", "no_double_free",
-            "freed_were_live", "release_terminates", "release_terminates_acyclic", "header_layout_matches_source"]
+            "freed_were_live", "release_terminates", "release_terminates_acyclic", "alloc_zeroed", "header_layout_matches_source"]
 
 REF_TYPES = ["str", "S", "PS", "sl", "arr", "mp", "I", "fn", "any"]
 
